@@ -132,6 +132,18 @@ def ledgerObs (d : DS) : String :=
 
 def ledgerH (d : DS) : Int := d.l.trunkHeight
 
+/-- lock keys of `SpinLock.ExtractLockKeys`: token inputs and own outputs exclusive, keys only read shared, written keys exclusive -/
+def lockKeys (t : Tx) : List (String × Bool) :=
+  let written := t.kout.map (·.key)
+  (t.ins.map (fun r => (s!"u{r.tx}_{r.off}", true))) ++
+  (t.outs.zipIdx.map (fun (_, i) => (s!"u{t.id}_{i}", true))) ++
+  ((t.kin.filter (fun ki => !written.contains ki.key)).map (fun ki => ("k" ++ ki.key, false))) ++
+  (written.map (fun k => ("k" ++ k, true)))
+
+/-- two submissions conflict iff they share a lock key that at least one of them wants exclusively -/
+def lockConflict (a b : Tx) : Bool :=
+  (lockKeys a).any (fun ka => (lockKeys b).any (fun kb => ka.1 == kb.1 && (ka.2 || kb.2)))
+
 /-- the environment as a *verifying* node sees it (Play, Walk): a fabricated generated transaction does not pass
 `ImmediateVerifyAutoTx` (it is not what the timer task produces), so it is inadmissible there; only the producer's
 `PlayForMiner` applies it unverified. The poison is an extra read of a key that never exists: admission fails, undo is unaffected. -/
@@ -212,6 +224,18 @@ def step (d : DS) (line : String) : DS × String :=
       (d, s!"undo={String.intercalate "," (u.map toString)} todo={String.intercalate "," (t.map toString)}")
     | "dotx" =>
       let (s', r) := doTx d.env d.s (ledgerH d) (arg 0)
+      ({ d with s := s' }, r.toString)
+    | "race2" =>
+      -- DoTx(b) runs while DoTx(a) is between applying and writing: serialisable outcome = a, then b refused by the lock
+      -- protocol if they conflict, else b as if submitted afterwards
+      let (s1, ra) := doTx d.env d.s (ledgerH d) (arg 0)
+      if ra == .ok && lockConflict (d.env.tx (arg 0)) (d.env.tx (arg 1)) then
+        ({ d with s := s1 }, ra.toString ++ ",lock")
+      else
+        let (s2, rb) := doTx d.env s1 (ledgerH d) (arg 1)
+        ({ d with s := s2 }, ra.toString ++ "," ++ rb.toString)
+    | "balrace" =>
+      let (s', r) := doTx d.env d.s (ledgerH d) (arg 1)
       ({ d with s := s' }, r.toString)
     | "play" =>
       let (s', r) := play (verifyEnv d) d.s (ledgerH d) (d.env.block (arg 0))
